@@ -18,7 +18,7 @@ def legendre(n, x):
     return p1
 
 def root_syms(n):
-    m = (n + 1) // 2; zs = [z3.Real('z%d' % i) for i in range(m)]; cons = []
+    m = (n + 1) // 2; zs = [z3.Real('glroot%d' % i) for i in range(m)]; cons = []
     for i, z in enumerate(zs):
         if n % 2 == 1 and i == m - 1: cons.append(z == 0)
         else: cons += [z3.simplify(legendre(n, z), som=True) == 0, z > 0, z < 1]
@@ -62,7 +62,7 @@ def job_newton_step(n):
         for I in f_.blocks[blk]:
             if I.op == 'phi' and I.dest.lstrip('%').split('.')[0] == 'z': regs[I.dest] = Z0; info['z'] = I.dest
         st.pc += [Z0 * Z0 != 1]
-    zs = [z3.Real('z%d' % i) for i in range((n + 1) // 2)]
+    zs = [z3.Real('glroot%d' % i) for i in range((n + 1) // 2)]
     _, paths = run('@verif_c12_rw', [n, A, B, lambda st: st.alloc(8 * n), lambda st: st.alloc(8 * n), lambda st: st.alloc(4)], cos_intercept(n, zs), pre=[A < B], limits=Limits(max_paths=400, feas_ms=3000, max_seconds=200), havoc={(fns[0], heads[0]): handler})
     Pn = legendre(n, Z0); Pm = legendre(n - 1, Z0); num = Pn * (Z0 * Z0 - 1); den = n * (Z0 * Pn - Pm)            # P_n / P_n' = num / den
     small = Abs(num) <= RV(1e-13) * Abs(den); mv = {'a': A, 'b': B, 'n': n, 'h_z': Z0, 'loop_step': 1}; nleave = nback = 0
